@@ -53,6 +53,8 @@ def _in_domain(c, wmax=8):
             qs = tuple(op.qubit_indices)
             if op.free_symbols or len(set(qs)) != len(qs) or len(qs) != op.gate.num_qubits:
                 return False
+            if GC.has_numpy_params(op.gate):
+                return False
             if not all(isinstance(q, (int, np.integer)) and 0 <= q < n for q in qs):
                 return False
     except Exception:
